@@ -869,7 +869,16 @@ class Run:
         self.stats['ops'] += 1
         self.log('update', kv)
         self.pre_update(kv)
-        r = self.o.param.update(**kv, **(extra or {}))
+        allkv = dict(kv, **(extra or {}))
+        form = self.rng.choice(['kw', 'kw', 'mapping', 'pairs-iterator'])
+        if form == 'kw':
+            r = self.o.param.update(**allkv)
+        elif form == 'mapping':
+            r = self.o.param.update(allkv)
+        else:
+            # (an iterable of pairs, as for dict.update: here one that can be consumed only once)
+            self.stats['updates_from_one_shot_iterables'] = self.stats.get('updates_from_one_shot_iterables', 0) + 1
+            r = self.o.param.update(iter(list(allkv.items())))
         self.post_update(kv)
         return r
 
